@@ -32,6 +32,21 @@ CLAIMED = {
             "Seeded search with cancellations/timeouts aimed at connection creation and hand-over windows plus connection deaths; after the fault phase a probe of `max` simultaneous callers must rendezvous inside Invoke within a simulated hour, otherwise capacity was lost; leaked connections are classified black-box (never used / idle after use).",
             "Trusted: as C27; the probe is black-box (no pool internals read).",
             "DESIGN.md §6 C28"),
+    "C01": ("updates", "exploration",
+            "deterministic simulation of the real updates.Manager against a model server and a lossy/duplicating/reordering push network, plus the real sequenceBox driven directly; refinement against a per-sequence position model",
+            "Seeded search over server histories (common pts, qts, seq, 0-3 channels), push loss/duplication/delay/reordering/batching, difference slicing, API errors and goroutine interleavings of the main loop with the per-channel workers; at every handler call each update's earlier positions must be delivered or covered by a fetched difference and no identity may be delivered twice; the box-level harness checks the tracked position against a reference position model after every Handle/apply.",
+            "Trusted: the model server follows the public update-handling documentation (DESIGN appendix D); identities are recoverable from delivered updates; 'covered by a fetched difference' starts when the response is handed to the library.",
+            "DESIGN.md §6 C01"),
+    "C02": ("updates", "exploration",
+            "deterministic simulation, two phases (faults, then quiet for two idle periods of simulated time); conservation oracle: server log minus too-long-reported ranges is a subset of the handler log",
+            "Seeded search as C01 with differences whose other_updates carry pts-bearing non-message updates interleaved with new_messages positions, slices, updatesTooLong, channel differences; after faults stop and two 15-minute idle periods of simulated time every committed update of the common, secret and tracked-channel logs must have been handed to the handler.",
+            "Trusted: as C01; bounded liveness is asserted only after the fault phase, within 2 idle timeouts + slack of simulated time.",
+            "DESIGN.md §6 C02"),
+    "C03": ("updates", "fault_enumeration",
+            "deterministic simulation with crash/restart: invariant at every storage write (persisted positions cover only delivered or too-long-reported updates), crash at storage-call / handler-call boundaries and arbitrary yields, restart from the durable state, conservation across both incarnations",
+            "Seeded search over histories as C01/C02 with one crash per run placed before/after the k-th storage call, before/after the k-th handler call or at the n-th yield of the manager's tasks, injected storage write errors, then a restart from exactly what the storage made durable; checks the persist-ahead invariant at every write and that the union of both runs' handler logs covers the server log.",
+            "Trusted: storage writes are atomic and immediately durable; a crash freezes every task of the manager at that exact point (nothing finishes up); crash points are sampled, not enumerated (level kept as fault_enumeration because the fault dimension is the crash point).",
+            "DESIGN.md §6 C03"),
     "C16": ("stream", "exploration",
             "deterministic simulation of codecs + transport connection/listener over a chunking byte-stream network with concurrent senders; sequence-equality oracle",
             "Seeded search over codec x handshake/listener mode x obfuscation x read chunking x 1-3 concurrent senders x payload sizes clustered at the length-encoding boundaries; the receiver must get exactly the sent payloads (per-sender order, byte-exact, once), 4-byte frames must surface as *codec.ProtocolErr with that code, and the listener's detected codec must be the client's.",
